@@ -33,7 +33,9 @@ for sid in sorted(os.listdir(os.path.join(VERIF, "seeded"))):
         p = subprocess.run(["/venv/bin/python", os.path.join(VERIF, "check.py"), prop, "--tier", tier], capture_output=True, text=True, env=env, timeout=7200)
     finally:
         subprocess.run(["git", "-C", "/repo", "worktree", "remove", "--force", wt])
-    sigs = sorted(set(re.findall(r"signature(?: not minimised:|=)\s*([A-Za-z0-9_/=.+-]+)", p.stdout)))
+    # only VIOLATION reports (not the KNOWN-FINDING lines, which also carry a signature= field)
+    lines = [l for l in p.stdout.splitlines() if l.startswith("  signature=") or "violation signature not minimised:" in l]
+    sigs = sorted(set(re.findall(r"signature(?: not minimised:|=)\s*([A-Za-z0-9_/=.+-]+)", "\n".join(lines))))
     meta["detected_by"] = {"check": prop, "tier": tier, "exit_code": p.returncode, "violation_signatures": sigs, "verif_commit": head}
     json.dump(meta, open(mp, "w"), indent=1)
     print(sid, "exit", p.returncode, sigs[:4])
